@@ -131,8 +131,8 @@ def h_universe(ctx):
     umax = _setmax(ctx, n)
     op = ctx.pick("op", ["neq", "gt", "lt"])
     nops = ctx.pick("nops", [1, 2]) if op == "neq" else 1
-    ops, line = _build(ctx, op, nops, 0, n + 1)
-    p = ctx.fresh("p", 1, n)
+    ops, line = _build(ctx, op, nops, 0, umax + 1)
+    p = ctx.fresh("p", 1, umax)
     port = Port(line, platform="ios", protocol="tcp", port_nr=True)
     ctx.reach(op)
     if not port.ports:
@@ -246,7 +246,7 @@ def h_writeback(ctx):
         n = 8 if ctx.tier == "quick" else 12
         umax = _setmax(ctx, n)
         # operands inside the universe 1..n (gt n and lt 1 denote no port at all and are part of the domain)
-        ops, line = _build(ctx, op, 1, 1, n)
+        ops, line = _build(ctx, op, 1, 1, umax)
     p = ctx.fresh("p", 1, umax)
     port = Port(line, platform="ios", protocol="tcp", port_nr=True)
     before_line, before_items = port.line, list(port.items)
@@ -343,3 +343,24 @@ def specs(tier, seed, concrete=False):
              [{"op": o, "window": w, "view": v} for o in ("gt", "lt") for w in ("low", "high") for v in VIEWS],
              goals=["assigned", "empty-set"], describe="gt/lt write-back at the real universe incl. empty sets"),
     ]
+
+
+def replay_variants(v):
+    """A counterexample found in the shrunk port universe 1..n (neq/gt/lt harnesses) is transported to the real universe:
+    every operand/probe value >= t is shifted by 65535 - n, for every threshold t (order and equality are preserved)."""
+    if v["choices"].get("op") not in ("neq", "gt", "lt") or v["spec"] not in ("universe", "writeback"):
+        return []
+    vals = v["values"]
+    keys = [k for k in vals if k == "p" or (k[0] == "o" and k[1:].isdigit())]
+    out = []
+    for n in (8, 12):
+        if not keys or max(vals[k] for k in keys) > n + 1:
+            continue
+        for t in range(n + 1, 0, -1):
+            alt = dict(vals)
+            for k in keys:
+                if vals[k] >= t:
+                    alt[k] = vals[k] + 65535 - n
+            if alt != vals and alt not in out:
+                out.append(alt)
+    return out
